@@ -502,11 +502,11 @@ def check(run):
                 "symmetry of the UTC-offset gate, the duration sign applied to the whole value, the UTC marker "
                 "re-attached on every parse of the stripped text, byte codec and decimal text agreement. Equality after "
                 "the round trip is value-level and undecided.")
-    r14a(run)
-    r14b(run)
-    r14c(run)
-    r14d(run)
-    r14e(run)
-    r14f(run)
-    r14g(run)
-    r14h(run)
+    run.rule(r14a, run)
+    run.rule(r14b, run)
+    run.rule(r14c, run)
+    run.rule(r14d, run)
+    run.rule(r14e, run)
+    run.rule(r14f, run)
+    run.rule(r14g, run)
+    run.rule(r14h, run)
